@@ -576,7 +576,7 @@ class Resolver:
             if dn:
                 lt = self.type_of(e.left, sc)
                 dunder(lt, dn, e)
-                if type(e.op) in RDUNDER and (lt in BUILTIN_SCALARS or lt is None):
+                if type(e.op) in RDUNDER and (lt is None or (isinstance(lt, str) and lt in BUILTIN_SCALARS)):
                     dunder(self.type_of(e.right, sc), RDUNDER[type(e.op)], e)
         elif isinstance(e, ast.UnaryOp) and isinstance(e.op, ast.USub):
             dunder(self.type_of(e.operand, sc), "__neg__", e)
